@@ -94,3 +94,60 @@ func runOne(t *testing.T, sc *Scenario, path string) {
 		RunBatcherV2(t, sc, f)
 	}
 }
+
+// TestShared: the same for the shared-resource rate limiters.
+func TestShared(t *testing.T) {
+	out := os.Getenv("VERIF_OUT")
+	if out == "" {
+		t.Skip("VERIF_OUT not set")
+	}
+	os.MkdirAll(out, 0o755)
+	if script := os.Getenv("VERIF_SCRIPT"); script != "" {
+		sc, err := ReadSScenario(script)
+		if err != nil {
+			t.Fatal(err)
+		}
+		runShared(t, sc, filepath.Join(out, "replay.hist"))
+		return
+	}
+	family := os.Getenv("VERIF_FAMILY")
+	seed := envInt("VERIF_SEED", 1)
+	n := int(envInt("VERIF_N", 10))
+	from := int(envInt("VERIF_FROM", 0))
+	for i := from; i < from+n; i++ {
+		sc := GenShared(family, seed, i)
+		if sc == nil {
+			t.Fatalf("unknown family %q", family)
+		}
+		runShared(t, sc, filepath.Join(out, fmt.Sprintf("%s-%d-%05d.hist", family, seed, i)))
+	}
+}
+
+func runShared(t *testing.T, sc *SScenario, path string) {
+	f, err := os.Create(path)
+	if err != nil {
+		t.Fatal(err)
+	}
+	defer f.Close()
+	limit := time.Duration(envInt("VERIF_WATCHDOG_S", 25)) * time.Second
+	wd := time.AfterFunc(limit, func() {
+		if lg, ok := currentLogger.Load().(*Logger); ok && lg != nil {
+			if lg.mu.TryLock() {
+				lg.w.Flush()
+			}
+		}
+		fmt.Fprintf(f, "hang\n")
+		buf := make([]byte, 1<<20)
+		n := runtime.Stack(buf, true)
+		os.WriteFile(path+".stacks", buf[:n], 0o644)
+		f.Sync()
+		os.Exit(3)
+	})
+	defer wd.Stop()
+	defer func() {
+		if e := recover(); e != nil {
+			fmt.Fprintf(f, "bubble-panic %v\n", e)
+		}
+	}()
+	RunShared(t, sc, f)
+}
